@@ -21,6 +21,7 @@ for x in v:
         if rc != 0:
             print("CANNOT", x["name"], out[-200:]); continue
         rc, t = sh("/venv/bin/python -m pytest -q -p no:cacheprovider -x 2>&1 | tail -1", wt)
+        sh("git add -A -N .", wt)  # new files of the variant belong to the diff
         rc, diff = sh("git diff", wt)
         open(patch, "w").write(diff)
         changed.append((x["name"], t.strip()))
